@@ -101,19 +101,30 @@ def sub [Sub α] (A B : Op α) : Op α where
   eval := fun x => vsub (A.eval x) (B.eval x)
   adj := fun y => vsub (A.adj y) (B.adj y)
 
-/-- `__mul__`/`__rmul__`: `eval_fn = other*self(x)`, `adj_fn = conj(other)*self.adj(x)` -/
+/-- `__mul__`/`__rmul__`: `eval_fn = other*self(x)`, `adj_fn = self.adj(self._to_output_space(conj(other)*x))`
+    (the scalar is applied BEFORE the operand's adjoint — repo 9a89e4c; `_to_output_space` is the identity when scalar
+    and output space are of the same kind, for a complex scalar on a real output space see `smulRe`) -/
 def smul [Mul α] [HasConj α] (c : α) (A : Op α) : Op α where
   nin := A.nin
   nout := A.nout
   eval := fun x => vsmul c (A.eval x)
-  adj := fun y => vsmul (conj c) (A.adj y)
+  adj := fun y => A.adj (vsmul (conj c) y)
 
-/-- `__truediv__`: `eval_fn = self(x)/other`, `adj_fn = self.adj(x)/conj(other)` -/
+/-- `__truediv__`: `eval_fn = self(x)/other`, `adj_fn = self.adj(self._to_output_space(x/conj(other)))` -/
 def sdiv [Div α] [HasConj α] (c : α) (A : Op α) : Op α where
   nin := A.nin
   nout := A.nout
   eval := fun x => vsdiv (A.eval x) c
-  adj := fun y => vsdiv (A.adj y) (conj c)
+  adj := fun y => A.adj (vsdiv y (conj c))
+
+/-- `c * A` for a COMPLEX scalar and an operator with a REAL output space (the result maps into a complex space):
+    `_to_output_space` keeps the real part, `adj_fn = self.adj(Re(conj(other)*x))`; `re` is the projection on the
+    real subfield -/
+def smulRe [Mul α] [HasConj α] (re : α → α) (c : α) (A : Op α) : Op α where
+  nin := A.nin
+  nout := A.nout
+  eval := fun x => vsmul c (A.eval x)
+  adj := fun y => A.adj (fun i => re (conj c * y i))
 
 /-- `Operator.__neg__`: `-1.0 * self` -/
 def neg [Mul α] [Neg α] [One α] [HasConj α] (A : Op α) : Op α := smul (-1) A
